@@ -214,7 +214,7 @@ def kinds_only(l):
     if l is None:
         return None
     if l.startswith("out "):
-        return "out"
+        return "out|err" if l.endswith("|err") else "out"
     if l.startswith("state "):
         return "state"
     return l
